@@ -1,9 +1,9 @@
 #!/usr/bin/env python3
-"""tools/seeded_store.py <PROP> <n> <needs> <detected_by_json>  - copies /tmp/seeded-out/<PROP>/{patchN.diff,demoN.*,RUNN.md,NOTES.md} to /verif/seeded/<PROP>-s<n>/ and writes meta.json"""
+"""tools/seeded_store.py <PROP> <n> <needs> <detected_by_json> [<stored-n>]  (SEED_ROUND=2 reads /tmp/seeded-out2)  - copies /tmp/seeded-out/<PROP>/{patchN.diff,demoN.*,RUNN.md,NOTES.md} to /verif/seeded/<PROP>-s<n>/ and writes meta.json"""
 import sys, os, json, shutil, glob
 prop, n, needs, det = sys.argv[1], sys.argv[2], sys.argv[3], json.loads(sys.argv[4])
-src = '/tmp/seeded-out/%s' % prop
-dst = '/verif/seeded/%s-s%s' % (prop, n)
+src = '/tmp/seeded-out%s/%s' % (os.environ.get('SEED_ROUND', ''), prop)
+dst = '/verif/seeded/%s-s%s' % (prop, sys.argv[5] if len(sys.argv) > 5 else n)
 os.makedirs(dst, exist_ok=True)
 shutil.copy('%s/patch%s.diff' % (src, n), dst + '/patch.diff')
 for f in glob.glob('%s/demo%s*' % (src, n)):
